@@ -676,3 +676,8 @@ _add_v("C09", "expr", "render")     # the position handed to an interpolated lit
 PROPS["C10"]._k = PROPS["C10"]._k + [u for u in props_lexer.C03_UNITS if u.harness.startswith("c03_") and "symbol" in u.harness and u not in PROPS["C10"]._k]   # `===` / `!==` are their own tokens
 _add_v("C18", "ctl")                                  # a `for` over a non-iterable is reported at the iterator expression
 _add_v("C14", "range_assign", "pairs", "range_read")  # a method written by range assignment / taken from a slice / handed out by `for` keeps its provenance
+_add_v("C03", "interp")                               # slot expressions are parsed when the string is evaluated: a reported error, never a panic
+_add_v("C13", "expr")                                 # `{.., rest..}` rebuilds the object: a spread copies, it does not move
+_add_v("C18", "object_bind", "list_bind")             # a missing property is reported at the property name, a shape error at the pattern
+_add_v("C15", "eq")                                   # equal byte sequences are `==` (bytes, not decoded text)
+_add_v("C19", "object_bind", "eq")                    # destructuring and `==` walk the ordered map, never a hash container (which error is reported first is a function of the program)
